@@ -848,7 +848,8 @@ def translate(repo_src, extra_path):
             sch = dict(premises=m.schema['premises'], conclusions=m.schema['conclusions'], binding=m.binding,
                        prem_vars=m.prem_vars)
         index.append(dict(name=n, cls=m.cls, idx=k, params=[dict(name=pn, type=pt, default=pd) for pn, pt, pd in m.params],
-                          schema=sch, spec=m.spec_kind, sha=m.sha, calls=m.calls, doc=m.doc))
+                          schema=sch, spec=m.spec_kind, sha=m.sha, calls=m.calls, doc=m.doc, uses_gen=m.uses_gen,
+                          inst_params=sorted(m.inst_params)))
     # DSL primitives of proof.py (hand-modelled in Lib/Term.v, lemmas in Lib/TermFacts.v): part of the
     # correspondence check only
     for k2, (pn, ptypes, coqf, doc) in enumerate(PRIMITIVES):
